@@ -54,7 +54,7 @@ package ice
 //@   ensures formula-relay: c.priorityOverride == 0 && c.candidateType == 4 && c.component <= 256 ==> result == 256*c.relayLocalPreference + (256 - c.component)
 
 //@ func (*CandidatePair).priority
-//@   props C17
+//@   props C17 C03 C20
 //@   requires p != nil
 //@   pure
 //@   ensures override: p.hasPriorityOverride ==> result == p.priorityOverride
